@@ -191,7 +191,7 @@ def sender_case(case, stats, bad):
     err = None
     import signal
     signal.signal(signal.SIGVTALRM, vnet._on_budget)
-    signal.setitimer(signal.ITIMER_VIRTUAL, vnet.CPU_BUDGET_S)
+    signal.setitimer(signal.ITIMER_VIRTUAL, vnet.CPU_BUDGET_S, 5.0)
     try:
         t_done = None
         min_rto = sender.rto
